@@ -3,10 +3,10 @@ from .. import core, histgen
 from .common import Run, all_flags, corpus_cases, generic_replay, parse_list
 
 PROP = "C06"
-MODULE = "PLS.Props.C06"
+MODULE = "PLS.Props.C06I"     # imports PLS.Props.C06
 THEOREMS = ["PLS.C06_invalid_keeps", "PLS.C06_defs_after_analyze", "PLS.C06_usages_after_analyze",
             "PLS.C06_inv_preserved", "PLS.C06_history_defs", "PLS.C06_mirror", "PLS.C06_invalid_keeps_imports",
-            "PLS.C06_invalid_first_uses_disk"]
+            "PLS.C06_invalid_first_uses_disk", "PLS.C06_broken_edit_keeps_provides", "PLS.C06_broken_edit_keeps_imported"]
 RULE = ("edit histories over a six-file workspace (root/sub conftest, imported fixture module, two test modules, a "
         "sibling conftest): 13 mutation kinds (add/remove/rename/duplicate fixtures, move text, add/remove usages, "
         "toggle imports, change parameters and scopes, reorder blocks, break and repair syntax, re-send identical "
